@@ -161,8 +161,13 @@ def run(case, ctx):
             out = Sequence.sequences_load(path)
         else:
             groups, meta, target = case["groups"], case["meta"], case["target"]
-            out = Sequence.sequences_load(file_path=path, track_indices=[list(g) for g in groups], meta_track_indices=list(meta),
-                                          target_meta_track_index=target)
+            if case["target"] % 2 == 0:
+                out = Sequence.sequences_load(file_path=path, track_indices=[list(g) for g in groups], meta_track_indices=list(meta),
+                                              target_meta_track_index=target)
+            else:
+                from scoda.midi.midi_file import MidiFile
+                out = Sequence.sequences_load(midi_file=MidiFile.open(path), track_indices=[list(g) for g in groups],
+                                              meta_track_indices=list(meta), target_meta_track_index=target)
     finally:
         os.remove(path)
     fails = []
